@@ -236,6 +236,7 @@ class Env:
 
 
 ENV: Env = None
+BINDING = {"on": False, "validated": 0, "mismatches": []}
 
 
 def scope_of(starter_params, source_wid, workers):
@@ -286,6 +287,14 @@ class Door:
         scope = str(p.get("pool_scope", "own swarm cluster shared")).split()
         e = ENV.ev("door", do=do, w=wid, node=node.params["name"] if node is not None else None,
                    ident=ident_of(node.params["name"]) if node is not None else None, items=[list(i) for i in items], scope=scope, modes=modes)
+        real = None
+        if BINDING["on"] and node is not None and do in ("check", "unset", "get"):
+            from vt.e1 import binding
+
+            try:
+                real = binding.replay_request(do, p, ENV.world, wid, variants)
+            except Exception as exc:  # noqa: BLE001
+                real = ("exception " + type(exc).__name__ + ": " + str(exc)[:120], None)
         if do == "check":
             ok = True
             for it in items:
@@ -293,6 +302,10 @@ class Door:
                 if not here:
                     ok = False
             e["answer"] = ok
+            if real is not None:
+                BINDING["validated"] += 1
+                if real[0] != ok:
+                    BINDING["mismatches"].append({"do": do, "worker": wid, "items": [list(i) for i in items], "model": ok, "real": str(real[0])})
             if not ok:
                 raise ShellCmdError(1, "cmd", "AssertionError")
         elif do == "unset":
@@ -305,6 +318,12 @@ class Door:
             for it in items:
                 if ENV.world.has("shared", it):
                     ENV.world.add(wid, it)
+        if real is not None and do != "check":
+            BINDING["validated"] += 1
+            model_own = sorted((o, s_) for (o, v, s_) in ENV.world.pools[wid])
+            real_own = sorted((o, s_) for (o, v, s_) in (real[1] or [])) if real[1] is not None else None
+            if real_own is None or set(model_own) != set(real_own):
+                BINDING["mismatches"].append({"do": do, "worker": wid, "items": [list(i) for i in items], "model_own_pool": model_own, "real": str(real)[:300]})
 
 
 def _start_record(node):
@@ -580,7 +599,7 @@ def explore_subtree(args):
             break
         pre = stack.pop()
         try:
-            x = execute(scn, pre)
+            x = execute(scn, pre, keep_graph=getattr(scn, "keep_graph", False))
         except ReplayDivergence as e:
             res.errors.append(f"replay divergence at prefix {pre}: {e}")
             continue
